@@ -89,3 +89,13 @@ func (c *FnCtx) allocInline(st *State, sub Term) {
 	st.assume(sNot(sSel(al.S, sub.S)))
 	c.heapSet(st, "alloc", Term{S: sSto(al.S, sub.S, "true"), Sort: al.Sort})
 }
+
+// crossPackage: the callee (by full key "importpath.Func" / "importpath.Type.Method") lives in another package than
+// the function being verified.
+func (c *FnCtx) crossPackage(calleeKey string) bool {
+	fi := c.e.funcs[calleeKey]
+	if fi == nil || fi.Pkg == nil || c.fi == nil || c.fi.Pkg == nil {
+		return false
+	}
+	return fi.Pkg.PkgPath != c.fi.Pkg.PkgPath
+}
